@@ -35,7 +35,7 @@ pub fn run(n: u64, seed: u64) -> Result<String, String> {
         let cfg = gen::draw_cfg(&mut t);
         let target = gen::draw_target_len(&mut t, dict);
         let mut enc = RefEnc::new(props, dict);
-        gen::gen_program(&mut t, &cfg, &mut enc, target, 4000);
+        gen::gen_program(&mut t, &cfg, &mut enc, target, 4000, &mut gen::ProgStats::default());
         let with_marker = t.below(2) == 0;
         if with_marker {
             enc.encode_end_marker();
